@@ -57,6 +57,7 @@ type fnInfo struct {
 	canAccept map[*ssa.BasicBlock]bool
 	loopsOf   map[*ssa.BasicBlock][]*ssa.BasicBlock // block -> headers of the loops containing it
 	loopBody  map[*ssa.BasicBlock]map[*ssa.BasicBlock]bool
+	rejEdge   map[[2]*ssa.BasicBlock]bool // (from, to): taking this edge makes a bool function return false
 	delegates []*ssa.Call
 }
 
@@ -66,6 +67,7 @@ type GuardEngine struct {
 	infos map[*ssa.Function]*fnInfo
 	Depth int
 	rootDepth int
+	factDepth int
 }
 
 func NewGuardEngine(p *Program, depth int) *GuardEngine {
@@ -121,7 +123,7 @@ func (ge *GuardEngine) info(fn *ssa.Function) *fnInfo {
 	if fi := ge.infos[fn]; fi != nil {
 		return fi
 	}
-	fi := &fnInfo{fn: fn, kind: fnKind(fn), canAccept: map[*ssa.BasicBlock]bool{}, loopsOf: map[*ssa.BasicBlock][]*ssa.BasicBlock{}, loopBody: map[*ssa.BasicBlock]map[*ssa.BasicBlock]bool{}}
+	fi := &fnInfo{fn: fn, kind: fnKind(fn), canAccept: map[*ssa.BasicBlock]bool{}, loopsOf: map[*ssa.BasicBlock][]*ssa.BasicBlock{}, loopBody: map[*ssa.BasicBlock]map[*ssa.BasicBlock]bool{}, rejEdge: map[[2]*ssa.BasicBlock]bool{}}
 	ge.infos[fn] = fi
 	if len(fn.Blocks) == 0 {
 		return fi
@@ -147,6 +149,16 @@ func (ge *GuardEngine) info(fn *ssa.Function) *fnInfo {
 			if acc {
 				fi.canAccept[b] = true
 				work = append(work, b)
+			}
+			// "return a && b && c": the result is a phi whose false edges come from the failed conjuncts
+			if fi.kind == "bool" && len(t.Results) > 0 {
+				if phi, ok := t.Results[len(t.Results)-1].(*ssa.Phi); ok && phi.Block() == b {
+					for i, e := range phi.Edges {
+						if k, ok := e.(*ssa.Const); ok && k.Value != nil && k.Value.ExactString() == "false" {
+							fi.rejEdge[[2]*ssa.BasicBlock{b.Preds[i], b}] = true
+						}
+					}
+				}
 			}
 		}
 	}
@@ -561,6 +573,8 @@ func (ge *GuardEngine) guardsRec(fn *ssa.Function, env *Env, chain []string, ctx
 			continue
 		}
 		rt, rf := !fi.canAccept[b.Succs[0]], !fi.canAccept[b.Succs[1]]
+		rt = rt || fi.rejEdge[[2]*ssa.BasicBlock{b, b.Succs[0]}]
+		rf = rf || fi.rejEdge[[2]*ssa.BasicBlock{b, b.Succs[1]}]
 		ge.pv.loadCtx = []ssa.Instruction{ifi}
 		l, op, r := ge.decompose(ifi.Cond, env)
 		g := Guard{Fn: fn, Block: b, Pos: ifi.Cond.Pos(), L: l, Op: op, R: r, Chain: chain, CondV: ifi.Cond, Env: env, IfPos: ifi}
@@ -638,10 +652,40 @@ type GuardReq struct {
 	Clause  string   // the clause of the property statement this row comes from
 	MinHits int      // number of distinct guards (by position) that must satisfy the row (default 1)
 	LoopExitOK bool  // the enclosing loop may legitimately stop early before reaching the guard (break)
+	All        bool  // search the guards of every function and closure reachable from the entry, not only error-propagating calls
 }
 
 type guardCache struct {
 	byEntry map[string][]Guard
+}
+
+// AllGuards collects the guards of fn, of every module function it calls (whether or not the
+// call's result is tested) and of the closures it defines. Used for void decoders, whose
+// rejection idiom is "record the error and return".
+func (ge *GuardEngine) AllGuards(fn *ssa.Function, env *Env, depth int, seen map[*ssa.Function]bool) []Guard {
+	if fn == nil || len(fn.Blocks) == 0 || depth > ge.Depth || seen[fn] {
+		return nil
+	}
+	seen[fn] = true
+	out := ge.Guards(fn, env, nil, nil, 0, map[*ssa.Function]int{})
+	for _, an := range fn.AnonFuncs {
+		out = append(out, ge.AllGuards(an, env, depth+1, seen)...)
+	}
+	for _, b := range fn.Blocks {
+		for _, in := range b.Instrs {
+			call, ok := in.(*ssa.Call)
+			if !ok {
+				continue
+			}
+			callee := ge.calleeOf(&call.Call)
+			if callee == nil || !ge.p.InModule(callee) || isCoderPrimitive(callee) {
+				continue
+			}
+			ge.pv.loadCtx = []ssa.Instruction{in}
+			out = append(out, ge.AllGuards(callee, ge.calleeEnv(callee, &call.Call, env), depth+1, seen)...)
+		}
+	}
+	return out
 }
 
 func (ge *GuardEngine) EntryGuards(entry string) ([]Guard, bool) {
@@ -678,6 +722,30 @@ func (ge *GuardEngine) CheckReq(c *Ctx, rule string, req GuardReq, guards []Guar
 		op string
 	}
 	var cands []cand
+	// integer-equivalent forms: x >= K+1 is x > K, x < K+1 is x <= K
+	var extra []Guard
+	for _, g := range guards {
+		if k, ok := constOf(g.R); ok && (g.Op == ">=" || g.Op == "<") {
+			h := g
+			h.R = fmt.Sprintf("const:%d", k-1)
+			if g.Op == ">=" {
+				h.Op = ">"
+			} else {
+				h.Op = "<="
+			}
+			extra = append(extra, h)
+		} else if k, ok := constOf(g.R); ok && (g.Op == ">" || g.Op == "<=") {
+			h := g
+			h.R = fmt.Sprintf("const:%d", k+1)
+			if g.Op == ">" {
+				h.Op = ">="
+			} else {
+				h.Op = "<"
+			}
+			extra = append(extra, h)
+		}
+	}
+	guards = append(append([]Guard{}, guards...), extra...)
 	for _, g := range guards {
 		if lre.MatchString(g.L) && rre.MatchString(g.R) {
 			cands = append(cands, cand{g, g.Op})
